@@ -438,11 +438,114 @@ class Gen:
         self.add({"op": "convert", "pkt": {"layer": "Phy_Packet", "bytes": "0102", "md": {"cls": "Metadata", "raw": True}}}, "base-metadata", "unrepresentable")
 
 
+    # -- sequences: several conversions, every result kept and re-read afterwards ---------------
+    def seqs(self):
+        r = self.rng
+        data = [p for _t, p in U.ble_data_pdus(r, False) if 4 <= len(p) <= 40]
+        advs = [p for _t, p, c in U.ble_adv_pdus(r, False) if c and (p[0] & 0xF) == 0]
+        frames = [p for _t, p in U.d15_frames(r, False) if 5 <= len(p) <= 60 and p[0] & 7 == 1]
+        PD = {"bleA": data[3], "bleB": data[17], "advA": advs[5], "advB": advs[9], "d15A": frames[2], "d15B": frames[7]}
+        for dom, uni in (("esb", False), ("unifying", True)):
+            pays = [p for t, p in U.esb_payloads(r, uni, False) if len(p) >= 3 and "badck" not in t]
+            PD[dom + "PA"], PD[dom + "PB"] = pays[1], pays[-1]
+            PD[dom + "FA"] = U.esb_frame(bytes([0x91, 2, 3, 4, 5]), pays[1], pid=1)       # preamble 0xAA
+            PD[dom + "FB"] = U.esb_frame(bytes([0xE7, 9, 3, 4, 5]), pays[-1], pid=2)
+        PD["phyA"], PD["phyB"] = U.rbytes(r, 12), U.rbytes(r, 5)
+        V = [0, 1, 2, 0, 0]          # metadata variant of each item
+        S = ["A", "A", "A", "B", "A"]  # payload of each item: same bytes x3 with different metadata, other bytes, first again
+
+        def mfields(cls, sel, v):
+            base = cls.partition("@")[0]
+            dom, name = base.split(".", 1)
+            if base == "ble.send_raw_pdu":
+                return {"direction": 1 + v, "conn_handle": 10 + v, "access_address": 0x11223344, "pdu": H(PD["ble" + sel]), "crc": 0x010203, "encrypt": v == 1}
+            if base == "ble.send_pdu":
+                return {"direction": 1 + v, "conn_handle": 10 + v, "pdu": H(PD["ble" + sel]), "encrypt": v == 1}
+            if base == "ble.adv_pdu":
+                a = PD["adv" + sel]
+                return {"adv_type": 1, "rssi": -40 - v, "bd_address": H(a[2:8]), "adv_data": H(a[8:]), "addr_type": (a[0] >> 6) & 1}
+            if base == "ble.pdu":
+                return {"direction": 1 + v, "pdu": H(PD["ble" + sel]), "conn_handle": 10 + v, "processed": v == 1, "decrypted": v == 2}
+            if base == "ble.raw_pdu":      # one advertisement sniffed on channels 37, 38, 39
+                return {"direction": 0, "channel": 37 + v, "rssi": -50 - v, "timestamp": 1000 + v, "relative_timestamp": 7 + v, "crc_validity": v != 1,
+                        "access_address": U.ADV_AA, "pdu": H(PD["adv" + sel]), "crc": 0xABCDEF, "conn_handle": 0, "processed": False, "decrypted": False}
+            if dom == "dot15d4":
+                f = {"channel": 11 + v, "pdu": H(PD["d15" + sel])}
+                if name in ("send_raw", "raw_pdu"):
+                    f["fcs"] = U.crc_kermit(PD["d15" + sel])
+                if name in ("pdu", "raw_pdu"):
+                    f.update({"rssi": -60 - v, "timestamp": 5 + v, "fcs_validity": v != 2, "lqi": 100 + v})
+                return f
+            if dom in ("esb", "unifying"):
+                raw = name in ("send_raw", "raw_pdu")
+                f = {"channel": 5 + v, "pdu": H(PD[dom + ("F" if raw else "P") + sel])}
+                if name.startswith("send"):
+                    f["retr_count"] = 1 + v
+                else:
+                    f.update({"rssi": -70 - v, "timestamp": 9 + v, "crc_validity": v != 1, "address": H(bytes([0x91, 2, 3, 4, 5 + v]))})
+                return f
+            if base == "phy.send":
+                return {"packet": H(PD["phy" + sel])}
+            f = {"frequency": 2402000000 + v, "packet": H(PD["phy" + sel]), "rssi": -30 - v, "timestamp": 77 + v}
+            if cls.endswith("@2"):
+                f.update({"syncword": H(bytes([0xAA, v])), "deviation": 250000 + v, "datarate": 1000000 + v, "endian": v % 2, "modulation": 3 + v})
+            return f
+
+        def pspec(cls, sel, v):
+            base = cls.partition("@")[0]
+            dom, name = base.split(".", 1)
+            if dom == "ble":
+                md = {"cls": "BLEMetadata", "raw": name in ("raw_pdu", "send_raw_pdu"), "direction": 1 + v, "connection_handle": 10 + v,
+                      "decrypted": v == 2, "processed": v == 1, "encrypt": v == 1}
+                if name == "adv_pdu":
+                    return {"layer": "BTLE_ADV", "bytes": PD["adv" + sel].hex(), "md": {"cls": "BLEMetadata", "raw": False, "direction": 0, "rssi": -40 - v}}
+                if name in ("raw_pdu", "send_raw_pdu"):
+                    if name == "raw_pdu":
+                        md.update({"channel": 37 + v, "rssi": -50 - v, "timestamp": 1000 + v, "relative_timestamp": 7 + v, "is_crc_valid": v != 1})
+                    return {"layer": "BTLE", "bytes": (struct.pack("<I", U.ADV_AA) + PD["adv" + sel] + b"\xab\xcd\xef").hex(), "md": md}
+                return {"layer": "BTLE_DATA", "bytes": PD["ble" + sel].hex(), "md": md}
+            if dom == "dot15d4":
+                raw = name in ("raw_pdu", "send_raw")
+                md = {"cls": "Dot15d4Metadata", "channel": 11 + v, "raw": raw if name.startswith("send") else None}
+                if not name.startswith("send"):
+                    md.update({"decrypted": False, "rssi": -60 - v, "timestamp": 5 + v, "is_fcs_valid": v != 2, "lqi": 100 + v})
+                b = PD["d15" + sel]
+                return {"layer": "Dot15d4FCS" if raw else "Dot15d4", "bytes": (b + struct.pack("<H", U.crc_kermit(b)) if raw else b).hex(), "md": md}
+            if dom in ("esb", "unifying"):
+                raw = name in ("raw_pdu", "send_raw")
+                md = {"cls": "ESBMetadata" if dom == "esb" else "UnifyingMetadata", "channel": 5 + v}
+                if name.startswith("send"):
+                    md.update({"raw": raw, "retransmission_count": 1 + v})
+                else:
+                    if dom == "unifying" or raw:
+                        md.update({"raw": raw, "decrypted": False})
+                    md.update({"rssi": -70 - v, "timestamp": 9 + v, "is_crc_valid": v != 1, "address": "91:02:03:04:%02x" % (5 + v)})
+                return {"layer": "ESB_Hdr" if raw else "ESB_Payload_Hdr", "bytes": PD[dom + ("F" if raw else "P") + sel].hex(), "md": md}
+            md = {"cls": "PhyMetadata", "raw": "raw" in name, "frequency": 2402000000 + v, "rssi": -30 - v, "timestamp": 77 + v}
+            if cls.endswith("@2"):
+                md.update({"syncword": {"syncword": bytes([0xAA, v]).hex()}, "deviation": 250000 + v, "datarate": 1000000 + v,
+                           "endianness": {"enum": ["Endianness", v % 2]}, "modulation": {"enum": ["Modulation", 3 + v]}})
+            return {"layer": "Phy_Packet", "bytes": PD["phy" + sel].hex(), "md": md}
+
+        for cls in U.CLS:
+            if cls != "phy.send_raw":
+                self.add({"op": "seq", "dir": "m2p", "cls": cls, "items": [mfields(cls, s_, v) for s_, v in zip(S, V)]}, "seq-to_packet", "seq")
+            if cls in U.RX_CLASSES:
+                self.add({"op": "seq", "dir": "p2m", "cls": cls, "items": [pspec(cls, s_, v) for s_, v in zip(S, V)]}, "seq-from_packet", "seq")
+        for dom, names in (("ble", ("send_pdu", "send_raw_pdu")), ("dot15d4", ("send", "send_raw")), ("esb", ("send", "send_raw")),
+                           ("unifying", ("send", "send_raw")), ("phy", ("send",))):
+            for name in names:
+                cls = dom + "." + name
+                self.add({"op": "seq", "dir": "conv", "dom": dom, "cls": cls, "items": [pspec(cls, s_, v) for s_, v in zip(S, V)]},
+                         "seq-convert_packet", "seq", dom=dom)
+
+
 def generate(ctx):
     g = Gen(ctx)
     g.m2p2m()
     g.p2m2p()
     g.convert()
+    g.seqs()
     return g.cases
 
 
@@ -474,6 +577,15 @@ def queries_of(case, res):
     req, q = case["req"], []
     proto = req.get("d15proto")
     try:
+        if req["op"] == "seq":
+            for e in res.get("first", []):
+                if req["dir"] == "m2p":
+                    m0 = ok(e.get("m0", {}))
+                    if m0:
+                        q += U.tp_queries(req["cls"], m0["f"], proto)
+                elif req["cls"] == "ble.adv_pdu" and ok(e.get("p0", {})):
+                    q += U.adv_from_queries(ok(e["p0"]))
+            return q
         if req["op"] == "m2p2m":
             m0 = ok(res.get("m0", {}))
             if m0:
@@ -562,6 +674,42 @@ class Oracle:
                       case, res, key=key)
             return False
         return True
+
+    # ---- sequences: every kept result re-read after the whole sequence
+    def seq(self, case, res, canon):
+        req = case["req"]
+        what = {"m2p": "to_packet", "p2m": "from_packet", "conv": "convert_packet"}[req["dir"]]
+        cls = req["cls"]
+        for i, (e, late) in enumerate(zip(res["first"], res["late"])):
+            r0 = ok(e.get("r", {}))
+            if r0 is None:
+                self.viol("%s of item %d of a %s sequence gave no result (%s)" % (what, i, cls, json.dumps(e.get("r"))), case, res)
+                return
+            if late is None or late["ok"] != r0:
+                self.viol("%s sequence (%s): the result kept for item %d changed after later conversions" % (what, cls, i), case, res,
+                          expected=r0, observed=late and late["ok"])
+                return
+            if req["dir"] == "m2p":
+                m0 = ok(e["m0"])
+                table = U.MD_MAP.get(cls) or {k: v for k, v in U.OPT_MAP.get(cls, {}).items()}
+                md = late["ok"]["md"] or {}
+                for field, item in table.items():
+                    exp = md_expect(field, m0["f"].get(field))
+                    if md.get(item, "MISSING") != exp:
+                        self.viol("%s sequence (%s): packet %d re-read after the sequence: metadata.%s does not carry its message's %s"
+                                  % (what, cls, i, item, field), case, res, expected=exp, observed=md.get(item, "MISSING"))
+                        return
+        if not res["distinct"] or not res["sub_distinct"]:
+            self.viol("%s sequence (%s): two conversions returned the same %s object" %
+                      (what, cls, "packet / metadata" if req["dir"] == "m2p" else "message"), case, res)
+            return
+        if "in_late" in res:
+            for i, (e, p) in enumerate(zip(res["first"], res["in_late"])):
+                if ok(e.get("p0", {})) != p:
+                    self.viol("%s sequence (%s): input packet %d was modified by the conversions" % (what, cls, i), case, res,
+                              expected=ok(e.get("p0", {})), observed=p)
+                    return
+        self.count("seq:%s-stable" % what)
 
     # ---- message -> packet -> message
     def m2p2m(self, case, res, canon):
@@ -787,6 +935,33 @@ class SkipCase(Exception):
 def case_term(case, res, qs, cres):
     """(kind, Coq term) or raises Unmodellable"""
     req = case["req"]
+    if req["op"] == "seq":
+        cls = req["cls"]
+        dom, ver = U.CLS[cls][2], ver_of(req)
+        tab = ctab_term(qs, cres)
+        pk = lambda d: U.pkt_term(d, dom)
+        items = []
+        for e, late in zip(res["first"], res["late"]):
+            if req["dir"] == "m2p":
+                m0 = ok(e.get("m0", {}))
+                if m0 is None:
+                    raise U.Unmodellable("message constructor failed")
+                if "exc_build" in e.get("r", {}):
+                    raise U.Unmodellable("bytes(packet) raised")
+                obs = U.obs_term(late if late is not None else e.get("r"), pk)
+                items.append("(%s, %s)" % (U.body_term(cls, m0["f"]), obs))
+            else:
+                p0 = ok(e.get("p0", {}))
+                if p0 is None:
+                    raise SkipCase("input packet not buildable with scapy")
+                obs = U.obs_term(late if late is not None else e.get("r"), tagged_printer(ver))
+                items.append("(%s, %s)" % (pk(p0), obs))
+        lst = "[" + "; ".join(items) + "]"
+        if req["dir"] == "m2p":
+            return "seq_to", "(%s, %s, %s)" % (tab, U.CLS[cls][0], lst)
+        if req["dir"] == "p2m":
+            return "seq_from", "(%s, %s, %s)" % (tab, U.CLS[cls][0], lst)
+        return "seq_convert", lst
     dom, ver = dom_of(case, res), ver_of(req)
     for st in res.values():
         if isinstance(st, dict) and "exc_build" in st:
@@ -882,7 +1057,10 @@ def branch_hits(c, r):
 
 CASE_TYPES = {"m2p2m": ("ctab * cls * body * obs packet * obs (cls * body)", "check_m2p2m"),
               "p2m2p": ("ctab * cls * kwargs * packet * obs (cls * body) * obs packet", "check_p2m2p"),
-              "convert": ("ctab * packet * obs (cls * body) * obs packet", "check_convert")}
+              "convert": ("ctab * packet * obs (cls * body) * obs packet", "check_convert"),
+              "seq_to": ("ctab * cls * list (body * obs packet)", "check_seq_to"),
+              "seq_from": ("ctab * cls * list (packet * obs (cls * body))", "check_seq_from"),
+              "seq_convert": ("list (packet * obs (cls * body))", "check_seq_convert")}
 
 
 def run_impl_all(cases, rng=None):
@@ -971,8 +1149,8 @@ def run(ctx):
 
     # ---- correspondence inside Coq ---------------------------------------------------------------
     pre = "From Whad Require Import Lib.Bytes C03.Model.\nOpen Scope Z_scope."
-    terms = {"m2p2m": [], "p2m2p": [], "convert": []}
-    index = {"m2p2m": [], "p2m2p": [], "convert": []}
+    terms = {k: [] for k in CASE_TYPES}
+    index = {k: [] for k in CASE_TYPES}
     unmodellable, skipped = [], 0
     in_coq = set(range(n1)) | {n1 + i for i in differ}
     for i, (c, r, qs) in enumerate(zip(cases, res, qlist)):
@@ -989,7 +1167,7 @@ def run(ctx):
         terms[kind].append(t)
         index[kind].append(i)
     bad_all, logs = [], []
-    for kind in ("m2p2m", "p2m2p", "convert"):
+    for kind in CASE_TYPES:
         ty, fn = CASE_TYPES[kind]
         bad, lg = C.run_cases(PID, kind, pre, ty, terms[kind], fn, shard=120, max_chars=300000)
         logs += lg
